@@ -683,6 +683,10 @@ impl<'a> BenchContext<'a> {
                 .reserve(self.options.sample_count.unwrap_or(1) as usize);
         }
 
+        // The first call measures the overheads, which takes a while and is not
+        // benchmarking time: do it before taking the initial timestamp.
+        let bench_overheads = timer.bench_overheads();
+
         let skip_ext_time = self.options.skip_ext_time.unwrap_or_default();
         let initial_start = if skip_ext_time {
             None
@@ -692,8 +696,6 @@ impl<'a> BenchContext<'a> {
 
         #[cfg(feature = "divan_verif")]
         verif_access::initial_start(initial_start.is_some());
-
-        let bench_overheads = timer.bench_overheads();
 
         #[cfg(feature = "divan_verif")]
         verif_access::loop_begin(
